@@ -401,8 +401,14 @@ class HplProperty(HplAstObject):
         return True
 
     def type_check_references(self, msg_types: Mapping[str, TypeToken]) -> None:
+        # an alias refers to a message of the channel of the event that binds it
+        types = dict(msg_types)
         for event in self.events():
-            event.type_check_references(msg_types)
+            for simple_event in event.simple_events():
+                if simple_event.alias is not None and simple_event.name in msg_types:
+                    types[simple_event.alias] = msg_types[simple_event.name]
+        for event in self.events():
+            event.type_check_references(types)
 
     def events(self) -> Iterator[HplEvent]:
         if self.scope.activator is not None:
